@@ -14,6 +14,7 @@ class C17(LoopCheck):
     pid = "C17"
     props = {"C17"}
     flows = ("plain", "resume")
+    adaptive_N3 = ()
     required_labels = ["c17/prior_attached", "c17/prior_of_same_points", "c17/count", "c17/importance_count", "c17/convert_weights"]
 
     def configs(self, tier):
